@@ -8,6 +8,18 @@ import sys
 VERIF = os.path.dirname(os.path.dirname(os.path.abspath(__file__)))
 
 CLAIMED = {
+    "C02": dict(
+        technique="decoder action table vs RFC reference for all 256 initial bytes; builder wiring / counter / typestate rules over every path of the 24 builder callbacks and _cbor_builder_append; predicate algebra for the break discipline",
+        text="Necessary conditions of faithful decoding, each decided for every input: T-dispatch equals the RFC 8949 "
+             "reference for all 256 initial bytes; every callback field is wired to a builder that constructs the kind and "
+             "width the field denotes with the value unchanged (chunks: an exact copy of the payload); openers push size / "
+             "2 x size / 1 / 0; chunks, members and tagged items are attached only where the parent's type and flavour are "
+             "established on the path (typestate harvested from the library's own assertions); the default arm releases "
+             "and raises the syntax flag; break closes only an open indefinite item at even map parity; no pointer into "
+             "the input buffer is kept.",
+        note="NOT claimed: acceptance if-and-only-if well-formed (the language of a push-down machine over runtime counters "
+             "is not decidable by a structural rule) and 'every definite container completely filled'.",
+        design="§4 C02"),
     "C03": dict(
         technique="typestate dispatch agreement (harvested preconditions + predicate algebra) over the serializer's enumerated paths, encoder tables vs RFC reference for all values, framing/member-order path rules, encoder->decoder mirror links",
         text="cbor_serialize's switch is exhaustive and each arm reaches the serializer whose own asserted precondition is that "
